@@ -83,7 +83,7 @@ def focus_for(prop, budget):
         return [(has('"hole"'), None), (has('"full"'), budget // 5), (refusal_in_ctx, budget // 2), (ok_edges, budget // 5),
                 (anything, budget // 10)]
     if prop == "C08":
-        return [(has(*NOCTX, '"read"', "Enter", "Exit", "allow_write"), int(budget * 0.7)), (anything, int(budget * 0.3))]
+        return [(has(*NOCTX, '"read"', "Enter", "ReEnter", "Exit", "allow_write"), int(budget * 0.7)), (anything, int(budget * 0.3))]
     if prop == "C11":
         return [(has('"duplicate"', '"full"', '"set"', "SetOk", "SetNo"), budget // 2), (ok_edges, budget // 3), (anything, budget // 6)]
     return [(ok_edges, int(budget * 0.7)), (has('"hole"'), None), (anything, int(budget * 0.3))]
